@@ -1025,7 +1025,7 @@ fn main() {
         std::process::exit(if failed { 1 } else { 0 });
     }
 
-    let (n_d, n_r, n_e) = if args.thorough() { (20_000, 2_500, 500) } else { (600, 120, 45) };
+    let (n_d, n_r, n_e) = if args.thorough() { (20_000, 2_000, 400) } else { (600, 120, 45) };
     let mut rng = Rng::new(args.seed);
 
     for (i, c) in dcorpus().iter().enumerate() {
